@@ -394,7 +394,6 @@ impl World {
                     m.objs[id as usize].nslots = nslots;
                     if self_weak.is_some() {
                         m.objs[id as usize].self_weak = true;
-                        m.objs[id as usize].stored_weaks.push(Some(id));
                     }
                 }
                 *node.self_weak.borrow_mut() = self_weak;
